@@ -262,5 +262,200 @@ theorem runningMax_ge (free : Nat) (as : List Nat) (k : Nat) {a s : Nat} (ha : a
       have := ih (max free x) k ha hs
       omega
 
+/-! ## §4 the keep-alive loop and the reader -/
+
+theorem wf_drain {S : Stacking} {L : Limits} (t : Nat) (es : List Ev) {c : Conn} (h : WF L c) :
+    WF L (drain S L t c es).conn := by
+  induction es generalizing c with
+  | nil => exact h
+  | cons e es ih =>
+    simp only [drain]
+    split
+    · exact h
+    · exact ih (wf_next _ _ h)
+
+theorem wf_nextK {S : Stacking} {L : Limits} {k : KConn} (t : Nat) (e : Ev) (h : WF L k.conn) :
+    WF L (nextK S L k t e).conn := by
+  unfold nextK
+  split
+  · exact h
+  · exact wf_drain _ _ (wf_next _ _ h)
+
+/-- pieces that are no progress in a phase in which the proxy reads are consumed and change nothing -/
+theorem drain_noProgress {S : Stacking} {L : Limits} (t : Nat) {c : Conn} (es : List Ev)
+    (hr : notReading c.phase = false) (hs : ∀ e ∈ es, noProgress c.phase e = true) :
+    drain S L t c es = ⟨c, []⟩ := by
+  induction es with
+  | nil => rfl
+  | cons e es ih =>
+    simp only [drain, hr]
+    rw [next_noProgress (hs e (List.mem_cons_self ..))]
+    exact ih (fun x hx => hs x (List.mem_cons_of_mem _ hx))
+
+/-- what is sent ahead stays where it is while the proxy does not read -/
+theorem drain_notReading {S : Stacking} {L : Limits} (t : Nat) {c : Conn} (es : List Ev)
+    (hr : notReading c.phase = true) : drain S L t c es = ⟨c, es⟩ := by
+  cases es with
+  | nil => rfl
+  | cons e es => simp [drain, hr]
+
+theorem nextK_reading_nil {S : Stacking} {L : Limits} {c : Conn} (t : Nat) (e : Ev)
+    (h : (notReading c.phase && sentByClient e) = false) :
+    nextK S L ⟨c, []⟩ t e = ⟨next S L c t e, []⟩ := by
+  simp [nextK, h, drain]
+
+/-- with nothing sent ahead the loop is the plain automaton -/
+theorem runK_eq_run {S : Stacking} {L : Limits} (evs : List (Nat × Ev)) {c : Conn}
+    (h : noWriteAhead S L c evs = true) : runK S L ⟨c, []⟩ evs = run S L c evs := by
+  induction evs generalizing c with
+  | nil => simp [runK, run]
+  | cons x rest ih =>
+    obtain ⟨t, e⟩ := x
+    simp only [noWriteAhead, Bool.and_eq_true, Bool.not_eq_true'] at h
+    obtain ⟨h1, h2⟩ := h
+    simp only [runK, run]
+    rw [nextK_reading_nil _ _ h1, ih h2]
+
+theorem runK_nil_some {S : Stacking} {L : Limits} {k : KConn} {d : Nat} (h : k.conn.deadline = some d) :
+    runK S L k [] = .closed d k.conn.phase k.conn.anchor := by
+  simp [runK, h]
+
+theorem runK_nil_none {S : Stacking} {L : Limits} {k : KConn} (h : k.conn.deadline = none) :
+    runK S L k [] = .stays k.conn := by
+  simp [runK, h]
+
+theorem runK_cons_before {S : Stacking} {L : Limits} {k : KConn} {t : Nat} {e : Ev}
+    (rest : List (Nat × Ev)) (h : ∀ d, k.conn.deadline = some d → max t k.conn.anchor < d) :
+    runK S L k ((t, e) :: rest) = runK S L (nextK S L k (max t k.conn.anchor) e) rest := by
+  cases hd : k.conn.deadline with
+  | none => simp [runK, hd]
+  | some d =>
+    have := h d hd
+    simp only [runK, hd]
+    split
+    · omega
+    · rfl
+
+/-- a piece that is no progress leaves a reading connection with an empty reader alone -/
+theorem nextK_noProgress {S : Stacking} {L : Limits} {c : Conn} {t : Nat} {e : Ev}
+    (hr : notReading c.phase = false) (h : noProgress c.phase e = true) :
+    nextK S L ⟨c, []⟩ t e = ⟨c, []⟩ := by
+  rw [nextK_reading_nil _ _ (by simp [hr]), next_noProgress h]
+
+theorem runK_stalled_some {S : Stacking} {L : Limits} {c : Conn} {d : Nat} (hd : c.deadline = some d)
+    (hr : notReading c.phase = false) (evs : List (Nat × Ev))
+    (hs : ∀ x ∈ evs, noProgress c.phase x.2 = true) :
+    runK S L ⟨c, []⟩ evs = .closed d c.phase c.anchor := by
+  induction evs with
+  | nil => exact runK_nil_some hd
+  | cons x rest ih =>
+    obtain ⟨t, e⟩ := x
+    have hx : noProgress c.phase e = true := hs (t, e) (List.mem_cons_self ..)
+    simp only [runK, hd]
+    split
+    · rfl
+    · rw [nextK_noProgress hr hx]; exact ih (fun y hy => hs y (List.mem_cons_of_mem _ hy))
+
+theorem runK_stalled_none {S : Stacking} {L : Limits} {c : Conn} (hd : c.deadline = none)
+    (hr : notReading c.phase = false) (evs : List (Nat × Ev))
+    (hs : ∀ x ∈ evs, noProgress c.phase x.2 = true) :
+    runK S L ⟨c, []⟩ evs = .stays c := by
+  induction evs with
+  | nil => exact runK_nil_none hd
+  | cons x rest ih =>
+    obtain ⟨t, e⟩ := x
+    have hx : noProgress c.phase e = true := hs (t, e) (List.mem_cons_self ..)
+    simp only [runK, hd]
+    rw [nextK_noProgress hr hx]; exact ih (fun y hy => hs y (List.mem_cons_of_mem _ hy))
+
+/-- the loop closes a connection only at `anchor + limit` of the phase it stalled in -/
+theorem runK_closed_wf {S : Stacking} {L : Limits} (evs : List (Nat × Ev)) {k : KConn} (h : WF L k.conn)
+    {t a : Nat} {p : Phase} (hr : runK S L k evs = .closed t p a) :
+    0 < limitOf L p ∧ t = a + limitOf L p := by
+  induction evs generalizing k with
+  | nil =>
+    cases hd : k.conn.deadline with
+    | none => simp [runK, hd] at hr
+    | some d =>
+      simp only [runK, hd] at hr
+      injection hr with h1 h2 h3
+      subst h1 h2 h3
+      exact dl_eq_some (h ▸ hd)
+  | cons x rest ih =>
+    obtain ⟨u, e⟩ := x
+    cases hd : k.conn.deadline with
+    | none =>
+      simp only [runK, hd] at hr
+      exact ih (wf_nextK _ _ h) hr
+    | some d =>
+      simp only [runK, hd] at hr
+      split at hr
+      · injection hr with h1 h2 h3
+        subst h1 h2 h3
+        exact dl_eq_some (h ▸ hd)
+      · exact ih (wf_nextK _ _ h) hr
+
+theorem noProgress_partialHead {p : Phase} (b : Nat) (h : noProgress p .data = true) :
+    ∀ e ∈ partialHead b, noProgress p e = true := by
+  intro e he
+  rw [List.eq_of_mem_replicate he]; exact h
+
+/-- the loop comes round (the response has been relayed, at `u`) with `b > 0` pieces of the next head in
+    the reader: `Peek(1)` returns at once and the header deadline is armed at `u` -/
+theorem nextK_round_partialHead {S : Stacking} {L : Limits} {c : Conn} (u : Nat) {b : Nat}
+    (hp : c.phase = .waitingForOrigin ∨ c.phase = .writing) (hb : 0 < b) :
+    nextK S L ⟨c, partialHead b⟩ u .complete = ⟨enter L .header u, []⟩ := by
+  have hn : next S L c u .complete = enter L .idle u := by
+    rcases hp with hp | hp <;> simp [next, hp]
+  have hnr : (notReading c.phase && sentByClient .complete) = false := by simp [sentByClient]
+  obtain ⟨b, rfl⟩ : ∃ b', b = b' + 1 := ⟨b - 1, by omega⟩
+  simp only [nextK, hnr, hn, partialHead, List.replicate_succ]
+  simp only [Bool.false_eq_true, if_false, drain, enter, notReading]
+  exact drain_noProgress u _ rfl (noProgress_partialHead b rfl)
+
+/-- the variant that arms the limit anew before every read: a dribbling peer moves the closing instant
+    with every piece -/
+theorem runRearm_dribble {S : Stacking} {L : Limits} (n : Nat) {c : Conn} {s g : Nat}
+    (hm : multiRead c.phase = true) (ha : c.anchor ≤ s)
+    (hd : c.deadline = some (s + limitOf L c.phase)) (hg : g < limitOf L c.phase) :
+    runRearm S L c (dribble s g n) = .closed (s + n * g + limitOf L c.phase) c.phase c.anchor := by
+  induction n generalizing c s with
+  | zero => simp [dribble, runRearm, hd]
+  | succ n ih =>
+    have hmax : max (s + g) c.anchor = s + g := by omega
+    have hlim : 0 < limitOf L c.phase := by omega
+    simp only [dribble, runRearm, hd, hmax]
+    rw [if_neg (by omega)]
+    have hn : nextRearm S L c (s + g) .data = { c with deadline := some (s + g + limitOf L c.phase) } := by
+      simp [nextRearm, hm, dl, hlim]
+    rw [hn, ih (c := { c with deadline := some (s + g + limitOf L c.phase) }) hm (by show c.anchor ≤ s + g; omega) rfl hg]
+    show Outcome.closed (s + g + n * g + limitOf L c.phase) c.phase c.anchor = _
+    rw [Nat.succ_mul]
+    congr 1
+    omega
+
+/-- pieces that arrive while the proxy waits for the origin (no deadline armed) are kept in the reader -/
+theorem runK_buffer_pieces {S : Stacking} {L : Limits} {c : Conn} (hp : notReading c.phase = true)
+    (hd : c.deadline = none) (t : Nat) (b : Nat) (as : List Ev) (rest : List (Nat × Ev)) :
+    runK S L ⟨c, as⟩ (List.replicate b (t, .data) ++ rest) = runK S L ⟨c, as ++ partialHead b⟩ rest := by
+  induction b generalizing as with
+  | zero => simp [partialHead]
+  | succ b ih =>
+    simp only [List.replicate_succ, List.cons_append, runK, hd]
+    have hn : nextK S L ⟨c, as⟩ (max t c.anchor) .data = ⟨c, as ++ [.data]⟩ := by
+      simp [nextK, hp, sentByClient]
+    rw [hn, ih]
+    simp [partialHead, List.replicate_succ]
+
+theorem dribble_all_data (s g n : Nat) : ∀ x ∈ dribble s g n, x.2 = .data := by
+  induction n generalizing s with
+  | zero => intro x hx; cases hx
+  | succ n ih =>
+    intro x hx
+    simp only [dribble, List.mem_cons] at hx
+    rcases hx with rfl | hx
+    · rfl
+    · exact ih _ x hx
+
 end C15
 end FwdVerif
